@@ -93,6 +93,15 @@ func c13FreeProperty(t *rapid.T) {
 	next := base + 1
 	tm := genFreeTemplate(t, 1, &next)
 	g := genFreeGroup(t, base, tm)
+	groupFill.order = rapid.IntRange(0, 2).Draw(t, "group-fill-order")
+	groupFill.reuse = rapid.Bool().Draw(t, "group-entry-reused")
+	defer func() { groupFill.order, groupFill.reuse = 0, false }()
+	if groupFill.reuse {
+		c.Class("free:entry-object-reused")
+	}
+	if groupFill.order != 0 {
+		c.Class("free:members-set-out-of-template-order")
+	}
 	nBefore := rapid.IntRange(0, 3).Draw(t, "before")
 	nAfter := rapid.IntRange(0, 3).Draw(t, "after")
 	m := quickfix.NewMessage()
